@@ -50,6 +50,11 @@ def scenarios(rng):
     for v in range(4):
         t = rng.choice(docs)
         S.append(('parse/%d' % v, [], 'parse 10 %d %s 0' % (v, hx(t)), ['onok chk 10', 'onok del 10'], []))
+    # long tokens: number literals around and beyond the 63 characters the parser looks at, long keys
+    L = rng.choice([62, 63, 64, 65, 100, 300])
+    lit = rng.choice([b'1' * L, b'0.' + b'3' * (L - 2), b'-' + b'9' * (L - 1), b'1e' + b'0' * (L - 3) + b'5', b'1' + b'0' * (L - 4) + b'e-9'])
+    for v, t in enumerate((lit, b'{"id":[1,' + lit + b',"tail"],"k' + b'y' * L + b'":' + lit + b'}')):
+        S.append(('parse/long-tokens-%d' % v, [], 'parse 10 %d %s 0' % (rng.randrange(4), hx(t)), ['onok chk 10', 'onok del 10'], []))
     tr = tree_with_strings(rng)
     b1 = ['build 1 ' + to_tn(tr)]
     for name, op in (('print/formatted', 'print 1 0'), ('print/unformatted', 'print 1 1'), ('print/buffered-0', 'print 1 2 0 %d' % rng.randrange(2)),
@@ -149,15 +154,18 @@ def split_iterations(cl):
     return its
 
 
-def judge(prop, cl, info, cfg, out, wit, first):
+def judge(prop, cl, info, cfg, out, wit, first, ledger_only=False):
+    """ledger_only: judge the allocator balance alone (C07: histories in which a request is refused)"""
     its = split_iterations(cl)
     name = info['name']
     if 0 not in its or its[0]['T'] is None:
         out.vios.append(Violation(prop, 'C08/%s/no-baseline' % name, 'the scenario did not run without faults', wit(cl, 0)))
         return
     base = its[0]
-    if base['T'].get('failed') == '1' and not name.endswith('missing'):
+    base_failed = base['T'].get('failed') == '1'
+    if base_failed and not name.endswith('missing') and not name.startswith('parse/long-tokens'):
         raise HarnessFailure('scenario %s fails even without a fault' % name)
+    kp = 'C08' if prop == 'C08' else prop + '/fault'
     N = int(base['T']['requests'])
     nfail = nnormal = 0
     for k in sorted(its):
@@ -171,13 +179,20 @@ def judge(prop, cl, info, cfg, out, wit, first):
         fired = T['fired'] == '1'
         failed = T['failed'] == '1'
         tag = '%s k=%d/%d cfg=%s' % (name, k, N, cfg)
-        if failed and not fired and base['T'].get('failed') != '1':
+        if failed and not fired and not base_failed:
+            if ledger_only:
+                continue
             out.vios.append(Violation(prop, 'C08/%s/failure-without-fault' % name, tag + ': call failed although no request was refused', wit(cl, info['tpos'])))
             continue
-        if failed and base['T'].get('failed') != '1':
+        if failed and (not base_failed or name.startswith('parse/')) and T.get('live_since', '0') != '0':
+            out.vios.append(Violation(prop, '%s/%s/leak-on-failure' % (kp, name), tag + ': %s blocks allocated during the failed call are still allocated' % T['live_since'], wit(cl, info['tpos'])))
+        if ledger_only:
+            if failed and not base_failed:
+                nfail += 1
+            else:
+                nnormal += 1
+        elif failed and not base_failed:
             nfail += 1
-            if T.get('live_since', '0') != '0':
-                out.vios.append(Violation(prop, 'C08/%s/leak-on-failure' % name, tag + ': %s blocks allocated during the failed call are still allocated' % T['live_since'], wit(cl, info['tpos'])))
             for s, ip in info['pre'].items():
                 a, b = it['R'].get(ip), it['R'].get(info['post'][s])
                 if a != b:
@@ -192,12 +207,12 @@ def judge(prop, cl, info, cfg, out, wit, first):
                 if it['R'].get(idx) != f:
                     out.vios.append(Violation(prop, 'C08/%s/result-differs-after-tolerated-fault' % name, tag + ': op %d answered %s, fault-free run %s' % (idx, it['R'].get(idx), f), wit(cl, info['tpos'])))
                     break
-        for idx in info['smoke']:
+        for idx in ([] if ledger_only else info['smoke']):
             if it['R'].get(idx) != base['R'].get(idx):
                 out.vios.append(Violation(prop, 'C08/%s/library-unusable-afterwards' % name, tag + ': smoke op %d answered %s instead of %s' % (idx, it['R'].get(idx), base['R'].get(idx)), wit(cl, info['tpos'])))
                 break
         if it['G'] is not None and base['G'] is not None and it['G'].get('live') != base['G'].get('live'):
-            out.vios.append(Violation(prop, 'C08/%s/leak-after-cleanup' % name, tag + ': %s blocks live after cleaning up, %s in the fault-free run' % (it['G'].get('live'), base['G'].get('live')), wit(cl, info['tpos'])))
+            out.vios.append(Violation(prop, '%s/%s/leak-after-cleanup' % (kp, name), tag + ': %s blocks live after cleaning up, %s in the fault-free run' % (it['G'].get('live'), base['G'].get('live')), wit(cl, info['tpos'])))
     if first:
         out.count('scn:' + name)
         out.count('requests:' + name, N)
@@ -255,7 +270,7 @@ def finish(prop, tier, results):
         'scenarios': per,
     }
     inc = None
-    missing = [k for k, v in per.items() if v['failure_returns'] == 0 and v['requests_total'] > 0 and not k.endswith('missing')]
+    missing = [k for k, v in per.items() if v['failure_returns'] == 0 and v['requests_total'] > 0 and not k.endswith('missing') and not k.startswith('parse/long-tokens')]
     if missing:
         inc = 'coverage floor: scenarios that never returned failure: %s' % missing
     if tot.evals == 0:
